@@ -43,6 +43,8 @@ struct St {
     sections: u64,
     nested: Vec<String>,
     shutdown: bool,
+    /// kernel thread ids of the worker threads (stuck-or-starved decision of the stall guard)
+    tids: Vec<i32>,
 }
 
 #[derive(Clone, Debug)]
@@ -91,6 +93,7 @@ impl Explorer {
                 sections: 0,
                 nested: vec![],
                 shutdown: false,
+                tids: vec![0; n],
             }),
             cv: Condvar::new(),
         });
@@ -217,6 +220,18 @@ impl Explorer {
             let (g, _) = self.sh.cv.wait_timeout(st, std::time::Duration::from_secs(1)).unwrap();
             st = g;
             if st.turn.is_some() && t0.elapsed() > std::time::Duration::from_secs(STALL_SECS) {
+                // stuck, or only starved of CPU on a loaded machine?
+                let (tid, step0) = (st.tids[t], st.step);
+                drop(st);
+                let sh2 = &self.sh;
+                let stuck = crate::common::par::confirm_stuck(tid, std::time::Duration::from_secs(STALL_SECS), &|| {
+                    let g = sh2.m.lock().unwrap();
+                    g.turn.is_some() && g.step == step0
+                });
+                st = self.sh.m.lock().unwrap();
+                if !stuck || st.turn.is_none() {
+                    continue;
+                }
                 // the granted thread runs alone; it neither reached its next lock event nor returned
                 let msg = format!("thread {} did not reach its next lock event or return within {} s after being granted step {} (it runs alone: an endless loop, or a wait on a lock another call still holds)", t, STALL_SECS, st.step);
                 drop(st);
@@ -248,6 +263,7 @@ impl Drop for Explorer {
 }
 
 fn worker(t: usize, sh: Arc<Shared>) {
+    sh.m.lock().unwrap().tids[t] = crate::common::par::my_tid();
     let sh_hook = sh.clone();
     set_lock_hook(Some(Box::new(move |ev: LockEvent| {
         let mut st = sh_hook.m.lock().unwrap();
